@@ -16,7 +16,7 @@ ASSUMPTIONS = [
 ]
 
 
-def evaluate_terms(pm, cname, ovo, grad):
+def evaluate_terms(pm, cname, ovo, grad, symbolic_clip=False):
     f = pm.classes[cname].methods.get("evaluate")
     if f is None:
         raise Unsupported(f"{cname}.evaluate not found")
@@ -27,6 +27,7 @@ def evaluate_terms(pm, cname, ovo, grad):
     if len(params) > 3:
         env[params[3]] = grad
     I = TermInterp(env, {f"{params[0]}.ovo": ovo, f"{params[0]}.epsilon": Poly.sym("eps")})
+    I.symbolic_clip = symbolic_clip
     out = I.run(f)
     return out, I.notes
 
@@ -39,9 +40,14 @@ def as_scalar(v):
 
 
 def check_gradient(pm, cname, ovo, budget=120):
-    """-> (status, detail): status in exact | tangent | different | undecided"""
+    """-> (status, detail): status in exact | different | undecided.
+    The predictions that reach the formulas are the clipped ones, p = clip(y): entries inside the clip interval vary with y, the
+    others are constants. With the clip mask m as a 0/1 tensor, the derivative of the returned score with respect to y[a,j] is
+    m[a,j] * dS/dp[a,j]; the returned gradient must be exactly that (a per-sample constant does NOT cancel along the simplex
+    once an entry of the row is clipped, which is legal for any epsilon in (0, 1))."""
+    from .e8_index import mk_var
     X.SIMPLEX["on"] = False
-    out, notes = evaluate_terms(pm, cname, ovo, True)
+    out, notes = evaluate_terms(pm, cname, ovo, True, symbolic_clip=True)
     if not (isinstance(out, tuple) and len(out) == 2):
         raise Unsupported("evaluate(return_grad=True) does not return a pair")
     score = as_scalar(out[0])
@@ -49,21 +55,35 @@ def check_gradient(pm, cname, ovo, budget=120):
     if tuple(g.shape) != ("N", "K"):
         return "different", f"the gradient has axes {list(g.shape)}, not [N, K]"
     m, j, j2 = "Nm", "Kj", "Kj2"
-    d = diff(score, "y", (m, j))
+    if any(a[0] == "var" and a[1] in X.INDICATOR_VARS for mono in score.t for a, _ in mono) or "mlo" in repr(score) or "mhi" in repr(score):
+        return "different", "the returned score depends on the clip mask itself (it must be computed from the clipped predictions only)"
+    mask = Poly.atom(mk_var("mlo", (m, j))) * Poly.atom(mk_var("mhi", (m, j)))
+    d = mask * diff(score, "y", (m, j))
     gt = subst(g.term, {"N@0": m, "K@1": j})
     D = gt - d
     if is_zero(D):
         return "exact", ""
-    D2 = D - subst(D, {j: j2})
-    if is_zero(D2):
-        return "tangent", "differs from the ambient derivative by a per-sample constant (no effect along the simplex)"
-    t0 = time.time()
+    # classify the difference for the message: equal inside the clip interval (all masks 1)?
+    from .e8_index import replace_tensor
+    ones = lambda p_: replace_tensor(replace_tensor(p_, "mlo", lambda idx: Poly.const(1)), "mhi", lambda idx: Poly.const(1))
     try:
-        ok, wit = instance_zero(D2, [m, j, j2], sizes_list=((2, 2), (2, 3)), simplex=True)
-    except Unsupported as e:
+        D1 = ones(D)
+        interior_equal = is_zero(D1)
+        tangent = (not interior_equal) and is_zero(D1 - subst(D1, {j: j2}))
+    except Unsupported:
+        interior_equal = tangent = False
+    if interior_equal:
+        return "different", ("the gradient equals the derivative only while no prediction is clipped: the clip mask enters the computation before a reduction over the "
+                             "samples, so the terms that clipped samples contribute through p(y=k) are lost (mask the finished gradient instead)")
+    if tangent:
+        return "different", ("the gradient differs from the derivative by a per-sample constant: this cancels along the simplex only while no entry of the row is clipped; "
+                             "with a clipped entry (any epsilon in (0,1) is legal) the directional derivatives over the remaining entries are wrong")
+    try:
+        ok, wit = instance_zero(ones(D), [m, j], sizes_list=((2, 2), (2, 3)), simplex=False)
+    except (Unsupported, ZeroDivisionError) as e:
         return "undecided", f"canonical forms differ and the finite instance cannot be expanded ({e})"
     if ok:
-        return "undecided", "canonical forms differ but the instances N,K in {(2,2),(2,3)} agree on the simplex: rewrite system incomplete for this form"
+        return "undecided", "canonical forms differ but the instances N,K in {(2,2),(2,3)} agree: rewrite system incomplete for this form"
     return "different", f"at N={wit['N']}, K={wit['K']}, entry {wit['indices']}: gradient - d(score) leaves the residual {wit['residual'][:160]}"
 
 
